@@ -503,11 +503,36 @@ def run(F, sel=None):
     n_src = 0
     n_fnval = 0
 
+    _callers = {}
+
+    def callers_of(fk):
+        """functions calling a non-public function (a closure that was turned into a private helper keeps the review of the
+        function it was extracted from)"""
+        if not _callers:
+            for b_ in F.bodies:
+                src = fn_key(b_)
+                for _bi, t_ in b_.calls():
+                    cb_ = F.callee_body(t_)
+                    if cb_ is not None and not cb_.is_closure():
+                        _callers.setdefault(cb_.path, set()).add(src)
+                    for a_ in t_["args"]:          # a function item handed on as a value: `mapv(helper)`
+                        if a_.get("k") == "const" and "fn" in a_ and a_["fn"].get("path"):
+                            _callers.setdefault(a_["fn"]["path"], set()).add(src)
+        body_ = F.body(fk)
+        if body_ is None or body_.get("vis") == "Public":
+            return ()
+        return sorted(_callers.get(fk, ()))
+
     def exempt_for(rule, fk):
         for fn, e in ex[rule].items():
             if fk.endswith(fn):
                 used.add((rule, fn))
                 return e
+        for c in callers_of(fk):
+            for fn, e in ex[rule].items():
+                if c.endswith(fn):
+                    used.add((rule, fn))
+                    return e
         return None
 
     # functions reported (non-exempt) by R1c: sinks whose taint comes *only* from calls to them are covered by that report
@@ -629,6 +654,8 @@ def run(F, sel=None):
             continue
         sws = steered_switches(F, b, results[b.path])
         cands = [e for fn, es in reviewed.items() if fk.endswith(fn) for e in es]
+        if not cands and sws:
+            cands = [e for c in callers_of(fk) for fn, es in reviewed.items() if c.endswith(fn) for e in es]
         taken = set()
         hits = {}
         for k_, sw in enumerate(sws):           # exact descriptor first
